@@ -32,7 +32,7 @@ TRUSTED = ['NumPy slicing/broadcasting in Plane.multiply and util.boundary (mode
            'np.dot / einsum in fourier.dft2 compute the sums of products (Model/Fourier.lean; C01 checks dft2 itself)',
            'np.exp(1j*t) = cos t + i sin t']
 UNPROVEN = [
-            'the tilted-segments class (fit_tilt metadata, prop_shape < shape, chain-overlapping output fields) is checked by the oracle on the real code only: per-field tilt shifts are outside Model/PropSeg.lean (C04/C02 model them); the merge step it exercises is covered by C06 reduce_total/reduce_pairwise_disjoint and C07 intensity_eq_normSq_field',
+            'chains with tilt elements (Tilt planes, Wavefront(tilt=), fitted tilts) are covered by correspondence (Model/PlaneTilt.lean + builderB Model/Propagate.lean, Model/Tilt.lean) and by the oracle; the end-to-end theorem is stated for tilt-free chains (tilt shifts: C04)',
             'partitions containing a segment (or producing an intermediate field) with exactly one element (known finding KF-C03-one-pixel-segment)',
             'propagation with fitted tilt or an output mask is outside this model (C04, C02)']
 ASSUMPTIONS = ['every segment bounding box and every intermediate field has more than one element',
@@ -123,12 +123,57 @@ def gen_tilt(rng):
             'amp': amp, 'piston': piston, 'shifts': shifts, 'dx': dx, 'du': du, 'fl': fl, 'os': os_, 'wavelength': wl,
             'oshape': oshape, 'pshape': pshape, 'chain': chain}
 
+def gen_mixed(rng):
+    """chains mixing Tilt planes / Wavefront(tilt=...) with segmented Pupil planes (no fitted tilt): tilt elements before AND
+    after the segmented plane(s) in most cases; both descriptions (segmented / monolithic) of every Pupil"""
+    for _ in range(200):
+        shape = (int(rng.integers(3, 8)), int(rng.integers(3, 8)))
+        npl = int(rng.integers(1, 3))
+        seg, mono = [], []
+        for i in range(npl):
+            a, b = _split_plane(rng, 'cf', shape)
+            seg.append(a); mono.append(b)
+        if not any(len(p['mask']['layers']) > 1 for p in seg): continue
+        if H7.has_one_element_field(seg) or H7.has_one_element_field(mono): continue
+        dx = [1.0, 1.0] if rng.integers(0, 2) else [1.0, 2.0]
+        fl = float(rng.integers(2, 9))
+        os_ = int(rng.integers(1, 3))
+        du = [float(rng.integers(1, 4)), float(rng.integers(1, 4))] if rng.integers(0, 2) else [2.0, 2.0]
+        alpha = float(rng.uniform(0.04, 0.25))
+        wl = float(np.round(dx[0] * du[0] / (alpha * fl * os_), 4))
+        for p in seg + mono: p['px'] = dx; p['fl'] = fl
+        def tilt():
+            # a few output pixels of displacement, sub-pixel part included
+            s = rng.uniform(-3, 3, 2)
+            return {'kind': 'tilt', 'x': float(np.round(s[0] * du[1] / (fl * os_), 6)), 'y': float(np.round(s[1] * du[0] / (fl * os_), 6))}
+        pat = int(rng.integers(0, 8))          # bit 0: tilt before, bit 1: tilt after, bit 2: Wavefront(tilt=)
+        if pat == 0: pat = 3
+        order = []          # indices into planes or 'T'
+        if pat & 1: order.append(tilt())
+        for i in range(npl):
+            order.append(i)
+            if i + 1 < npl and rng.integers(0, 2): order.append(tilt())
+        if pat & 2:
+            order.append(tilt())
+            if rng.integers(0, 3) == 0: order.append(tilt())
+        wt = None
+        if pat & 4:
+            t = tilt(); wt = [t['x'], t['y']]
+        oshape = [int(rng.integers(3, 7)), int(rng.integers(3, 7))]
+        pshape = None
+        if rng.integers(0, 3) == 0: pshape = [int(rng.integers(2, oshape[0] + 1)), int(rng.integers(2, oshape[1] + 1))]
+        return {'kind': 'mixed', 'mode': 'cf', 'seg': seg, 'mono': mono, 'order': order, 'wtilt': wt, 'wavelength': wl,
+                'prop': {'du': du, 'os': os_, 'shape': oshape, 'prop_shape': pshape, 'dx': dx, 'z': fl}}
+    raise RuntimeError('generator could not build a mixed chain')
+
 def generate(rng, tier):
     n = {'quick': 150, 'thorough': 3000, 'search': 1000}[tier]
     out = []
     for k in range(n):
         if k % 7 == 6:
             out.append(gen_tilt(rng)); continue
+        if k % 7 == 5:
+            out.append(gen_mixed(rng)); continue
         t = k % 5
         if t in (0, 1): out.append(gen_case(rng, 'gi', prop=False))
         elif t == 2: out.append(gen_case(rng, 'cf', prop=False))
@@ -136,6 +181,9 @@ def generate(rng, tier):
     return out
 
 def signature(c):
+    if c['kind'] == 'mixed':
+        o = ''.join('T' if isinstance(x, dict) else f"P{len(c['seg'][x]['mask']['layers'])}" for x in c['order'])
+        return f"mixed {'W' if c['wtilt'] else ''}{o} {c['seg'][0]['mask']['shape']} {vlib.jhash(c['seg'])[:6]} prop={c['prop']}"
     if c['kind'] == 'tilt':
         return f"tilt {c['shape']} K={len(c['layers'])} os={c['os']} P={c['pshape']} out={c['oshape']} shifts={c['shifts']} du={c['du']}"
     s = ' | '.join(f"{p['mask']['shape']} k={len(p['mask']['layers'])} amp:{H7._akind(p['amp'])} opd:{H7._akind(p['opd'])} {vlib.jhash(p['mask'])[:6]}"
@@ -143,10 +191,16 @@ def signature(c):
     return f"{c['mode']} {s} prop={c.get('prop')}"
 
 def nontrivial(c):
-    if c['kind'] == 'tilt': return True
+    if c['kind'] in ('tilt', 'mixed'): return True
     return any(len(p['mask']['layers']) > 1 for p in c['seg'])
 
 def tags(c):
+    if c['kind'] == 'mixed':
+        idx = [i for i, x in enumerate(c['order']) if not isinstance(x, dict)]
+        before = bool(c['wtilt']) or any(isinstance(x, dict) for x in c['order'][:idx[0]])
+        after = any(isinstance(x, dict) for x in c['order'][idx[0] + 1:])
+        return ['mixed-tilt-chain', 'mixed:tilt-before+after' if before and after else 'mixed:tilt-before' if before else 'mixed:tilt-after',
+                'mixed:Wavefront(tilt)' if c['wtilt'] else 'mixed:no-wavefront-tilt']
     if c['kind'] == 'tilt':
         return ['tilted-segments', f"tilt:K={len(c['layers'])}", 'tilt:chain-spacing' if c['chain'] else 'tilt:random-spacing']
     t = [f"mode:{c['mode']}", f"planes:{len(c['seg'])}", 'propagated' if 'prop' in c else 'not-propagated']
@@ -192,14 +246,40 @@ def _run_tilt(c):
         tx = sr * du[0] / (z * os_); ty = -sc * du[1] / (z * os_)
         opd += mask[k] * (tx * r * dx[0] + ty * (-q) * dx[1] + c['piston'][k])
     pupil = lentil.Pupil(amplitude=amp, mask=mask, opd=opd, pixelscale=tuple(dx), focal_length=z)
-    wA = lentil.Wavefront(c['wavelength']) * pupil.fit_tilt()
+    fitted = pupil.fit_tilt()
+    wA = lentil.Wavefront(c['wavelength']) * fitted
+    pre = {'opd': [float(x) for x in np.asarray(fitted.opd).ravel()], 'amp': [float(x) for x in amp.ravel()],
+           'seg_tilts': [[[float(t.y), float(t.x)] for t in fitted.tilt[n::fitted.size]] for n in range(fitted.size)],
+           'fields': [dict(H7.fld_out(f, 'cf'), tilts=_tilt_vals(f)) for f in wA.data]}
     wA = lentil.propagate_dft(wA, pixelscale=tuple(du), shape=c['oshape'], prop_shape=c['pshape'], oversample=os_)
     wB = lentil.Wavefront(c['wavelength']) * pupil
     wB = lentil.propagate_dft(wB, pixelscale=tuple(du), shape=c['oshape'], oversample=os_)
-    return {'shape': [int(x) for x in wA.shape], 'chips': [_chip(f) for f in wA.data], 'full': [_chip(f) for f in wB.data],
+    return {'pre': pre, 'shape': [int(x) for x in wA.shape], 'chips': [_chip(f) for f in wA.data], 'full': [_chip(f) for f in wB.data],
             'field': H7.arr_out(wA.field, 'cf'), 'intensity': H7.arr_out(wA.intensity, 'cf')}
 
+def _tilt_vals(f):
+    # Tilt.__init__ stores self.x = y, self.y = x: report the constructor arguments (x, y)
+    return [[float(t.y), float(t.x)] for t in f.tilt]
+
+def _run_mixed(c, planes):
+    lentil = vlib.import_lentil()
+    wl = c['wavelength']
+    w = lentil.Wavefront(wavelength=wl, tilt=c['wtilt'])
+    for x in c['order']:
+        w = w * (lentil.Tilt(x=x['x'], y=x['y']) if isinstance(x, dict) else H7.build_plane(planes[x], 'cf', wl))
+    o = {'fields': [dict(H7.fld_out(f, 'cf'), tilts=_tilt_vals(f)) for f in w.data], 'focal': float(w.focal_length)}
+    p = c['prop']
+    w2 = lentil.propagate_dft(w, pixelscale=tuple(p['du']), shape=tuple(p['shape']),
+                              prop_shape=None if p['prop_shape'] is None else tuple(p['prop_shape']), oversample=p['os'])
+    o['field'] = H7.arr_out(w2.field, 'cf'); o['intensity'] = H7.arr_out(w2.intensity, 'cf'); o['nout'] = len(w2.data)
+    return o
+
 def impl(c):
+    if c['kind'] == 'mixed':
+        try:
+            return {'seg': _run_mixed(c, c['seg']), 'mono': _run_mixed(c, c['mono'])}
+        except (ValueError, IndexError, TypeError) as e:
+            return {'exc': type(e).__name__, 'msg': str(e)[:200]}
     if c['kind'] == 'tilt':
         try:
             return _run_tilt(c)
@@ -219,8 +299,28 @@ def _req(c, planes):
         r['prop'] = {'dx': vlib.fl(p['dx']), 'du': vlib.fl(p['du']), 'os': p['os'], 'shape': p['shape'], 'prop_shape': p['prop_shape'] or p['shape']}
     return r
 
+def _prop_req(p):
+    return {'dx': vlib.fl(p['dx']), 'du': vlib.fl(p['du']), 'os': p['os'], 'shape': p['shape'], 'prop_shape': p['prop_shape'] or p['shape']}
+
+def _mixed_req(c, planes):
+    els = []
+    for x in c['order']:
+        if isinstance(x, dict): els.append({'kind': 'tilt', 'x': vlib.fbits(x['x']), 'y': vlib.fbits(x['y'])})
+        else: els.append(H7.plane_req(dict(planes[x], px=[int(v) for v in planes[x]['px']]), 'cf'))
+    return {'op': 'c03.chain', 'wavelength': vlib.fbits(c['wavelength']), 'wtilt': None if c['wtilt'] is None else vlib.fl(c['wtilt']),
+            'elements': els, 'prop': _prop_req(c['prop'])}
+
 def requests(c, io):
-    if c['kind'] == 'tilt': return []        # oracle-only class: propagation with tilt shifts is outside Model/PropSeg.lean
+    if c['kind'] == 'mixed': return [_mixed_req(c, c['seg']), _mixed_req(c, c['mono'])]
+    if c['kind'] == 'tilt':
+        # the fitted OPD and tilt coefficients come from np.linalg.lstsq (trusted contract, C04): the model takes the fitted plane
+        if 'exc' in io: return []
+        sh = c['shape']
+        pl = {'kind': 'pupil', 'amp': {'shape': sh, 'v': vlib.fl(io['pre']['amp'])}, 'opd': {'shape': sh, 'v': vlib.fl(io['pre']['opd'])},
+              'mask': {'shape': sh, 'layers': c['layers']}, 'px': [int(x) for x in c['dx']], 'fl': vlib.fbits(c['fl']),
+              'seg_tilts': [[vlib.fl(t) for t in l] for l in io['pre']['seg_tilts']]}
+        return [{'op': 'c03.chain', 'wavelength': vlib.fbits(c['wavelength']), 'wtilt': None, 'elements': [pl],
+                 'prop': {'dx': vlib.fl(c['dx']), 'du': vlib.fl(c['du']), 'os': c['os'], 'shape': [c['oshape']] * 2, 'prop_shape': [c['pshape']] * 2}}]
     return [_req(c, c['seg']), _req(c, c['mono'])]
 
 def _scale(c, key='field', pre=False):
@@ -244,8 +344,35 @@ def _cmp_pre(c, a, m, mode, sc):
             if not H7._close(H7._np_arr(a[key]), H7._dec_arr(m[key], mode), mode, _scale(c, key, True)): return f'{key} (before propagation) differs'
     return None
 
+def _cmp_chain(real_fields, real_field, real_int, m, bound):
+    """real per-field list (data, offset, tilt values) and propagated views vs the answer of c03.chain"""
+    if not m.get('ok'): return f"model refused ({m.get('err')})"
+    key = lambda f: (f['off'], f['shape'], [[round(v, 15) for v in t] for t in f['tilts']])
+    mf = [dict(f, tilts=[vlib.unfl(t) for t in f['tilts']]) for f in m['fields']]
+    A = sorted(real_fields, key=key); B = sorted(mf, key=key)
+    if len(A) != len(B): return f'{len(A)} fields, model {len(B)}'
+    for x, y in zip(A, B):
+        if x['off'] != y['off'] or x['shape'] != y['shape']: return f"field placement differs: {x['off']}/{x['shape']} vs {y['off']}/{y['shape']}"
+        if x['tilts'] != y['tilts']: return f"per-field tilt list differs: impl {x['tilts']} model {y['tilts']}"
+        if not H7._close(H7._np_arr(x), H7._dec_arr(y, 'cf'), 'cf', bound[0]): return 'field data before propagation differ'
+    for k, real, b in (('field', real_field, bound[1]), ('intensity', real_int, bound[1] ** 2)):
+        if isinstance(m.get(k), str) or k not in m: return f'model {k}: {m.get(k)}'
+        x, y = H7._np_arr(real), H7._dec_arr(m[k], 'cf')
+        if not H7._close(x, y, 'cf', b): return f'propagated {k} differs (max {np.max(np.abs(x - y)):.3g})'
+    return None
+
 def compare(c, io, mo):
-    if c['kind'] == 'tilt': return None
+    if c['kind'] == 'mixed':
+        if 'exc' in io: return f"implementation raised {io['exc']}: {io.get('msg')}"
+        b = (_scale(c, 'field', True), _scale(c, 'field'))
+        for name, m in zip(('seg', 'mono'), mo):
+            d = _cmp_chain(io[name]['fields'], io[name]['field'], io[name]['intensity'], m, b)
+            if d: return f'{name}: {d}'
+        return None
+    if c['kind'] == 'tilt':
+        if 'exc' in io or not mo: return None
+        a = max(abs(x) for x in io['pre']['amp']); n = c['shape'][0] * c['shape'][1]
+        return _cmp_chain(io['pre']['fields'], io['field'], io['intensity'], mo[0], (max(1.0, a), max(1.0, a) * n))
     if 'exc' in io: return f"implementation raised {io['exc']}: {io.get('msg')}"
     mode = c['mode']; sc = _scale(c)
     for name, m in zip(('seg', 'mono'), mo):
@@ -302,6 +429,19 @@ def _oracle_tilt(c, io):
 def oracle(c, io):
     if 'exc' in io: return f"raised {io['exc']}: {io.get('msg')}"
     if c['kind'] == 'tilt': return _oracle_tilt(c, io)
+    if c['kind'] == 'mixed':
+        want = ([] if c['wtilt'] is None else [list(c['wtilt'])]) + [[x['x'], x['y']] for x in c['order'] if isinstance(x, dict)]
+        for name in ('seg', 'mono'):
+            for f in io[name]['fields']:
+                if f['tilts'] != want: return f'{name}: a field carries the tilt list {f["tilts"]}, the chain applied {want}'
+        for key in ('field', 'intensity'):
+            x, y = H7._np_arr(io['seg'][key]), H7._np_arr(io['mono'][key])
+            if not H7._close(x, y, 'cf', _scale(c, key)):
+                return f'segmented and monolithic {key} differ after a tilt / segmented plane / tilt chain and propagation (max {np.max(np.abs(x - y)):.3g})'
+        for name in ('seg', 'mono'):
+            f = H7._np_arr(io[name]['field'])
+            if not H7._close(H7._np_arr(io[name]['intensity']), H7._nsq(f), 'cf', _scale(c, 'intensity')): return f'{name}: intensity != |field|^2 after propagation'
+        return None
     mode = c['mode']; sc = _scale(c)
     s, m = io['seg'], io['mono']
     for key in ('field', 'intensity'):
@@ -324,7 +464,7 @@ def oracle(c, io):
     return None
 
 def shrink(c):
-    if c['kind'] == 'tilt': return
+    if c['kind'] in ('tilt', 'mixed'): return
     if len(c['seg']) > 1:
         for i in range(len(c['seg'])):
             d = dict(c); d['seg'] = c['seg'][:i] + c['seg'][i + 1:]; d['mono'] = c['mono'][:i] + c['mono'][i + 1:]
